@@ -415,7 +415,7 @@ def unit_playback(res, repo_dir):
         return out
     tname = m.group(1)
     vals = re.findall(r"vec!\[([\d, ]*)\]", src)
-    out["concrete_vals"] = [[int(x) for x in v.split(",") if x.strip()] for v in vals[1:]] if len(vals) > 1 else vals
+    out["concrete_vals"] = [[int(x) for x in v.split(",") if x.strip()] for v in vals]
     path = os.path.join(repo_dir, "regexml/src/verif_kani.rs")
     with open(path, "a") as f:
         f.write("\n#[cfg(test)]\nmod verif_playback_%s {\n    use super::*;\n%s\n}\n" % (tname, src))
